@@ -14,7 +14,12 @@ for p in sorted((V / "seeded").iterdir()):
         x = re.sub(r"\s+", " ", str(x)).replace("|", "/")
         return x if len(x) <= n else x[: n - 1] + "…"
     rows.append(f"| `{p.name}` | {m.get('property','?')} | {cell(m.get("summary",""), 150)} | {cell(m.get("trigger",""), 110)} | {cell(', '.join(r.get('caught_by', [])), 160)} | {cell(r.get('first_run','?'), 200)} |")
-seed = "\n".join(rows)
+notes = []
+for p in sorted((V / "seeded").iterdir()):
+    r = json.loads((p / "result.json").read_text()) if (p / "result.json").exists() else {}
+    if r.get("strengthening"):
+        notes.append(f"* `{p.name}` - first run: {r.get('first_run','')}. **Strengthened:** {r['strengthening']}.")
+seed = "\n".join(rows) + "\n\nMisses and what was changed because of them (every seed is caught by the quick tier now):\n\n" + "\n".join(notes)
 d = re.sub(r"<!-- SEEDED:BEGIN -->.*?<!-- SEEDED:END -->", "<!-- SEEDED:BEGIN -->\n" + seed + "\n<!-- SEEDED:END -->", d, flags=re.S)
 
 def walls(f):
